@@ -96,6 +96,7 @@ func newFsClient(p *Program, rep *fsRules) *fsClient {
 	c.mergedT = p.namedType("Merged")
 	c.writerT = p.namedType("Writer")
 	c.resolveFields()
+	findFreshNameFuncs(p)
 	osPkg := p.Main.Imports["os"]
 	if osPkg == nil {
 		fatalf("unresolved anchor: package os not imported by %s", modulePath)
@@ -226,7 +227,46 @@ func isFreshName(t *Term) bool {
 	if b, ok := isSuffixConcat(t, ".ref"); ok {
 		t = b
 	}
-	return t.Op == "call" && t.Aux == "formatName"
+	return t.Op == "call" && freshNameFuncs[t.Aux]
+}
+
+// freshNameFuncs: the in-package functions that format a table name around a
+// number drawn from math/rand inside the same call (found structurally: a
+// function with a single string result that calls fmt.Sprintf and boxes the
+// result of a math/rand call made in its own body).  Only such names are
+// taken to differ from every existing name.
+var freshNameFuncs = map[string]bool{}
+
+func findFreshNameFuncs(p *Program) {
+	freshNameFuncs = map[string]bool{}
+	for _, f := range p.Funcs {
+		res := f.Signature.Results()
+		if res.Len() != 1 || types.TypeString(res.At(0).Type(), nil) != "string" {
+			continue
+		}
+		sprintf, boxedRand := false, false
+		for _, b := range f.Blocks {
+			for _, ins := range b.Instrs {
+				if ci, ok := ins.(ssa.CallInstruction); ok {
+					if cal := ci.Common().StaticCallee(); cal != nil && cal.Pkg != nil {
+						if cal.Pkg.Pkg.Path() == "fmt" && cal.Name() == "Sprintf" {
+							sprintf = true
+						}
+					}
+				}
+				if mi, ok := ins.(*ssa.MakeInterface); ok {
+					if cv, ok := mi.X.(*ssa.Call); ok {
+						if cal := cv.Common().StaticCallee(); cal != nil && cal.Pkg != nil && cal.Pkg.Pkg.Path() == "math/rand" {
+							boxedRand = true
+						}
+					}
+				}
+			}
+		}
+		if sprintf && boxedRand {
+			freshNameFuncs[funcKey(f)] = true
+		}
+	}
 }
 
 // undraw replaces per-iteration instances draw(m, i) by their summary member m.
@@ -432,14 +472,14 @@ func (c *fsClient) listedIn(st *State, name *Term, l *Term) int {
 // inlining policy
 
 var fsOpaque = map[string]bool{
-	"NewWriter": true, "NewReader": true, "NewMerged": true, "formatName": true,
+	"NewWriter": true, "NewReader": true, "NewMerged": true,
 	"suggestCompactionSegment": true, "validateRefRecordAddition": true,
 	"(*Stack).checkAddition": true, "(*Reader).Close": true,
 }
 
 func (c *fsClient) Inline(callee *ssa.Function) bool {
 	k := funcKey(callee)
-	if fsOpaque[k] {
+	if fsOpaque[k] || freshNameFuncs[k] {
 		return false
 	}
 	if recv := callee.Signature.Recv(); recv != nil {
@@ -1012,6 +1052,26 @@ func (c *fsClient) removeTable(x *Exec, st *State, fr *Frame, site ssa.CallInstr
 	}
 	key := role + " / remove table"
 	if name.containsOp("direntname") {
+		// LOCK-OWN for garbage collection: a directory entry is removed only on a
+		// path that established a suffix which a lock file cannot have
+		suffix := ""
+		for k, v := range st.facts {
+			t := st.fterm[k]
+			if !v || t == nil || t.Op != "pure" || t.Aux != "strings.HasSuffix" || len(t.Args) != 2 {
+				continue
+			}
+			if t.Args[0] != name && undraw(t.Args[0]) != undraw(name) {
+				continue
+			}
+			if sfx, ok := constString(t.Args[1]); ok && (suffix == "" || !strings.HasSuffix(sfx, ".lock")) {
+				suffix = sfx
+			}
+		}
+		if suffix != "" && !strings.HasSuffix(suffix, ".lock") {
+			c.okay("LOCK-OWN", role+" / removal of directory entries spares lock files", "only entries ending in "+strconv.Quote(suffix)+" are removed")
+		} else {
+			c.violate(st, "LOCK-OWN", role+" / removal of directory entries spares lock files", pos, "a directory entry is removed on a path that does not exclude lock files (suffix established: "+strconv.Quote(suffix)+"): a lock created by another handle can be deleted, so two compactions may rewrite the same table")
+		}
 		if g.flag("validated") == nil {
 			c.violate(st, "LIST-VALID", role+" / remove in Clean", pos, "Clean removes a file without holding the list lock with an up-to-date view")
 		} else {
@@ -1057,9 +1117,13 @@ func (c *fsClient) rename(x *Exec, st *State, fr *Frame, site ssa.CallInstructio
 	}
 	if kb == kTable {
 		c.violate(st, "PRE-COMMIT-INVISIBLE", role+" / rename onto existing table", pos, "a file is renamed onto the name of an existing table")
+		if ka == kTmp {
+			c.violate(st, "NAME-FRESH", role+" / new table is published under a fresh name", pos, "a new table is renamed into place under a name that is not drawn fresh for this table (no math/rand draw in the call that formats it): the same name can come to denote different contents, and handles that reuse open readers by name then mix versions")
+		}
 		return
 	}
 	if ka == kTmp && kb == kNewTable {
+		c.okay("NAME-FRESH", role+" / new table is published under a fresh name", "the name is formatted around a random number drawn for this table")
 		if _, ok := g.tmps[a.key]; !ok {
 			c.violate(st, "PAIR-TMP", role+" / rename of removed temp", pos, "temp file renamed after it was removed")
 		}
